@@ -113,6 +113,47 @@ def call(shape, style, runner, vals):
     return True, "ok"
 
 
+def spelling(names, runner, vals):
+    from celpy import celtypes as ct
+    a, b = vals["a"], vals["b"]
+    for nm in names:
+        for form, src, want, nargs in (("method", f"a.{nm}(b)", 1 + 2 * a + 3 * b, 2), ("global", f"{nm}(a, b)", 1 + 2 * a + 3 * b, 2), ("method0", f"a.{nm}()", 1 + 2 * a, 1)):
+            where = f"`{src}` with a host function supplied under the name {nm} ({runner})"
+            try:
+                prog = make_program(src, runner, functions={nm: host_f})
+            except Exception as ex:  # noqa: BLE001
+                return False, f"{where}: program construction raised {type(ex).__name__}: {ex}"
+            del CALLS[:]
+            kd, r = evaluate_outcome(lambda: prog.evaluate({"a": ct.IntType(a), "b": ct.IntType(b)}))
+            if kd != "value" or not isinstance(r, int) or int(r) != want:
+                return False, f"{where}: expected the host result {want}, got {kd} {str(r)[:120]}"
+            if len(CALLS) != 1 or [int(x) for x in CALLS[0][1]] != [a, b][:nargs]:
+                return False, f"{where}: host invocations {CALLS!r:.160}, expected one with {[a, b][:nargs]}"
+    return True, "ok"
+
+
+def host_rec(*args):
+    from celpy import celtypes as ct
+    CALLS.append(("rec", args))
+    return ct.IntType(100 + len(args))
+
+
+def receivers(runner, vals):
+    from celpy import celtypes as ct
+    for rc in ["null", "0", "''", "false", "[]", "{}", "0u", "0.0", "b''", "n", "m.k"]:
+        for src in (f"({rc}).g(b)", f"g({rc}, b)"):
+            where = f"`{src}` with host function g ({runner})"
+            prog = make_program(src, runner, functions={"g": host_rec})
+            del CALLS[:]
+            kd, r = evaluate_outcome(lambda: prog.evaluate({"b": ct.IntType(vals["b"]), "n": None, "m": ct.MapType({ct.StringType("k"): None})}))
+            if kd != "value" or int(r) != 102 or len(CALLS) != 1 or len(CALLS[0][1]) != 2:
+                return False, f"{where}: expected g(receiver, b) = 102 with one invocation of two arguments, got {kd} {str(r)[:100]}; invocations {[(n, len(a)) for n, a in CALLS]}"
+            recv = CALLS[0][1][0]
+            if (rc in ("null", "n", "m.k")) != (recv is None) or (recv is not None and bool(recv)):
+                return False, f"{where}: receiver handed to the host function is {recv!r}"
+    return True, "ok"
+
+
 def shadow(runner, vals):
     from celpy import celtypes as ct
     b = {"l": ct.ListType([ct.IntType(1), ct.IntType(2)]), "a": ct.IntType(vals["a"])}
